@@ -5,8 +5,9 @@
    (send, channel), newest first; `count_log s c` counts the deliveries of send s to channel c.
    Only statements closed by `exact`. *)
 From Coq Require Import List.
-From AQ Require Import Feed.FeedLTS Feed.FeedProofs Feed.FeedInvA Feed.FeedInvB Feed.FeedExact Feed.FeedOrder Feed.FeedRecv Feed.FeedStuck.
+From AQ Require Import Feed.FeedLTS Feed.FeedProofs Feed.FeedInvA Feed.FeedInvB Feed.FeedExact Feed.FeedOrder Feed.FeedRecv Feed.FeedStuck Feed.FeedBlocked.
 From AQ Require Import Feed.MuxLTS Feed.MuxProofs Feed.MuxExact Feed.MuxPath.
+From AQ Require Import Feed.DupLTS Feed.DupProofs Feed.DupDeliver Feed.DupPath.
 Import ListNotations.
 
 (* exactly_once: on every path of the LTS, a Send that has completed (put the sendLock token back;
@@ -106,6 +107,75 @@ Example C19_example :
                        LSendLock 2; LSendMerge 2; LTryFail 2 2; LSelectEnter 2; LRecvBegin 2; LRecvEnd 2 1;
                        LSelSent 2 2; LSendUnlock 2; LSendRet 2 1]) = Some st
              /\ log st = [(2, 2); (1, 2)] /\ arr st = [2] /\ panicked st = false /\ rank st 1 = 1 /\ rank st 2 = 2.
+Proof. eexists. vm_compute. repeat split; reflexivity. Qed.
+
+(* a blocked Send blocks nobody (the liveness-shaped half as a safety statement; generalises fix 7e25422): in every
+   reachable state in which Send s sits in reflect.Select — the only place where Send waits for receivers — the
+   sendLock token is held by exactly that Send, no remove holds it, and every step of Subscribe and of an
+   Unsubscribe under way is enabled; a remover that found nothing in the inbox can hand its channel to this Send *)
+Theorem C19_blocked_send_blocks_nobody : forall st s, reachable st -> s_pc (sndr st s) = SSelect ->
+  lock st = Some (OSend s) /\
+  (forall s', holding (s_pc (sndr st s')) = true -> s' = s) /\
+  (forall c cap, c_subd (chs st c) = false -> enabled st (LSubscribe c cap) = true) /\
+  (forall c, c_subd (chs st c) = true -> rem st c = RNone -> enabled st (LUnsubCall c) = true) /\
+  (forall c, rem st c = RCalled -> enabled st (LRemoveInbox c) = true \/ enabled st (LRemoveNotInbox c) = true) /\
+  (forall c, rem st c = RSelecting -> enabled st (LSelRemove s c) = true) /\
+  (forall c, rem st c = RHanded -> enabled st (LRemoveHandoff c) = true) /\
+  (forall c, rem st c = RDone -> enabled st (LUnsubRet c) = true) /\
+  (forall c, rem st c <> RLocked).
+Proof. exact blocked_send_blocks_nobody. Qed.
+Print Assumptions C19_blocked_send_blocks_nobody.
+
+(* ======================================================================== one channel subscribed several times
+   Feed/DupLTS.v is the Feed LTS without the restriction "a channel value is subscribed at most once" (which
+   FeedLTS.step imposes and all theorems above live under): sendCases may contain the same channel several
+   times, `find`/`delete` work by channel identity, removers of one channel are counted per program point.
+   `cnt c l` = number of cases of channel c in l; `dreachable st` = `exists tr, drun dinit tr = Some st`;
+   a trace element is (label, hint) where the hint tells which ready case reflect.Select chose. *)
+
+(* multiset form of sendcases_consistent: no slice operation panics; (cases of c in inbox ++ sendCases) +
+   (completed removals of c) = (Subscribe calls on c); removers belong to distinct subscriptions; a remover
+   that found nothing in the inbox finds a case in sendCases; for the running Send every served case has been
+   delivered to, and deliveries + unserved cases never exceed the cases it started with *)
+Theorem C19_dup_sendcases_consistent : forall st, dreachable st ->
+  d_panicked st = false /\
+  (forall c, cnt c (d_inbox st ++ d_arr st) + gone st c = d_nsub st c) /\
+  (forall c, r_total (d_rem st c) + locked_by st c <= d_nsub st c) /\
+  (forall c, r_sel (d_rem st c) <= cnt c (d_arr st)) /\
+  (forall s c, active (s_pc (d_sndr st s)) = true ->
+     s_k (d_sndr st s) <= length (d_arr st) /\
+     cnt c (skipn (s_k (d_sndr st s)) (d_arr st)) <= count_log s c (d_log st) /\
+     count_log s c (d_log st) + cnt c (firstn (s_k (d_sndr st s)) (d_arr st)) <= cnt c (d_cases0 st s)).
+Proof. exact dup_sendcases_consistent. Qed.
+Print Assumptions C19_dup_sendcases_consistent.
+
+(* never more copies than the channel had cases when the Send merged the inbox (d_cases0) *)
+Theorem C19_dup_copies_upper : forall st s c, dreachable st ->
+  (active (s_pc (d_sndr st s)) = true \/ s_pc (d_sndr st s) = SUnlocked \/ s_pc (d_sndr st s) = SDone) ->
+  count_log s c (d_log st) <= cnt c (d_cases0 st s).
+Proof. exact dup_copies_upper. Qed.
+Print Assumptions C19_dup_copies_upper.
+
+(* exactly-once, generalised: a completed Send of a well-typed value delivered to channel c at least as many copies
+   as c had cases (= live subscriptions) in state m right after SendCall, minus the removers of c already under way
+   in m (`inflight`), minus the Unsubscribe calls on c made while the Send ran (`ncalls c t3`).  With one
+   subscription and no Unsubscribe this is "at least once", and C19_dup_copies_upper gives "at most once". *)
+Theorem C19_dup_copies_lower : forall t1 m0 s h1 m t3 m5 h2 m6 t4 st c,
+  drun dinit t1 = Some m0 -> dstep m0 (LSendCall s) h1 = Some m ->
+  drun m t3 = Some m5 -> dstep m5 (LSendUnlock s) h2 = Some m6 -> drun m6 t4 = Some st ->
+  (forall x, In x t3 -> fst x <> LSendBadType s) ->
+  cnt c (d_inbox m ++ d_arr m) <= count_log s c (d_log st) + inflight m c + ncalls c t3.
+Proof. exact dup_copies_lower. Qed.
+Print Assumptions C19_dup_copies_lower.
+
+(* non-vacuity: channel 1 subscribed twice (cap 8) and channel 2 once; Send 1 delivers two copies to channel 1;
+   one of the two subscriptions is unsubscribed (by channel identity); Send 2 delivers one copy *)
+Example C19_dup_example :
+  exists st, drun dinit [(LSubscribe 1 8, 0); (LSubscribe 1 8, 0); (LSubscribe 2 8, 0); (LSendCall 1, 0); (LSendLock 1, 0); (LSendMerge 1, 0);
+                         (LTryOk 1 1, 0); (LTryOk 1 2, 0); (LTryOk 1 1, 0); (LSendUnlock 1, 0); (LSendRet 1 3, 0);
+                         (LUnsubCall 1, 0); (LRemoveNotInbox 1, 0); (LRemoveLock 1, 0); (LRemoveUnlock 1, 0); (LUnsubRet 1, 0);
+                         (LSendCall 2, 0); (LSendLock 2, 0); (LSendMerge 2, 0); (LTryOk 2 2, 0); (LTryOk 2 1, 0); (LSendUnlock 2, 0); (LSendRet 2 2, 0)] = Some st
+    /\ count_log 1 1 (d_log st) = 2 /\ count_log 2 1 (d_log st) = 1 /\ cnt 1 (d_arr st) = 1 /\ d_nsub st 1 = 2 /\ d_panicked st = false.
 Proof. eexists. vm_compute. repeat split; reflexivity. Qed.
 
 (* ======================================================================== TypeMux (aqua/event/event.go)
